@@ -21,6 +21,9 @@ Definition op_of_jv (v : jv) : op :=
   else if str_eqb k (pys "row") then ORow c (as_str (jfield "sid" v))
   else if str_eqb k (pys "notify") then ONotify (nat_of_jv (jfield "k" v))
   else if str_eqb k (pys "drop") then ODrop c
+  else if str_eqb k (pys "reqgone") then
+    OReqGone c (jfield "m" v) (map (fun b => map as_str (as_arr b)) (as_arr (jfield "rows" v)))
+             (as_bool (jfield "prep" v)) (as_bool (jfield "can_query" v))
   else OMsg c (jfield "m" v) (as_bool (jfield "limited" v))
             (map (fun b => map as_str (as_arr b)) (as_arr (jfield "rows" v)))
             (as_bool (jfield "prep" v)) (as_bool (jfield "can_query" v))
